@@ -101,7 +101,7 @@ inductive Subterm : Term → Term → Prop where
 
 theorem hnormal_subterm {s t : Term} (h : HNormal f t) (hs : Subterm s t) : f s = s := by
   induction hs with
-  | refl t => exact h.root
+  | refl => exact h.root
   | step hc _ ih => exact ih (h.child hc)
 
 /-- **Fixed point.**  The returned term is hereditarily normal: `f` is the identity on it and on every subterm
@@ -203,18 +203,18 @@ private def dag : Term := .node 2 [sh, .node 3 [sh, y0], .node 1 [sh]]
 /-- `node 1 [x] → x` -/
 private def fUnwrap : Term → Term := applyRules [] [(1, .arg 0)]
 
-example : run fUnwrap 100 dag = .done (.node 2 [x0, .node 3 [x0, y0], x0]) := by decide
-/-- the shared subterm is rewritten once: 8 calls of `f` (one per distinct node incl. rebuilt ones), not 11 -/
-example : (runFrom fUnwrap 100 (init [] dag)).2.calls = 7 := by decide
-example : run fUnwrap 5 dag = .outOfFuel := by decide
+example : run fUnwrap 100 dag = .done (.node 2 [x0, .node 3 [x0, y0], x0]) := by decide +kernel
+/-- the shared subterm is visited once (memo hit on the 2nd and 3rd occurrence): 6 calls of `f`, not 9 -/
+example : (runFrom fUnwrap 100 (init [] dag)).2.calls = 6 := by decide +kernel
+example : run fUnwrap 5 dag = .outOfFuel := by decide +kernel
 
 /-- a two-cycle `node 1 a → node 2 a → node 1 a` below a healthy node -/
 private def fCycle : Term → Term := applyRules [] [(1, .relabel 2), (2, .relabel 1)]
-example : run fCycle 100 (.node 5 [y0, sh]) = .loop sh := by decide
+example : run fCycle 100 (.node 5 [y0, sh]) = .loop sh := by decide +kernel
 
 /-- an exact-table rewrite to a *bigger* term that then normalises -/
 private def fGrow : Term → Term := applyRules [(y0, .node 3 [sh, sh])] [(1, .arg 0)]
-example : run fGrow 100 (.node 2 [y0, y0]) = .done (.node 2 [.node 3 [x0, x0], .node 3 [x0, x0]]) := by decide
+example : run fGrow 100 (.node 2 [y0, y0]) = .done (.node 2 [.node 3 [x0, x0], .node 3 [x0, x0]]) := by decide +kernel
 
 /-- the hypotheses of `driver_sound` are satisfiable with a non-trivial meaning: `sem` = the leftmost leaf label,
 which `node 1 [x] → x` preserves -/
@@ -222,7 +222,7 @@ private def leftLeaf : Term → Nat
   | .node l [] => l
   | .node _ (a :: _) => leftLeaf a
 
-example : leftLeaf (.node 2 [x0, .node 3 [x0, y0], x0]) = leftLeaf dag := by decide
+example : leftLeaf (.node 2 [x0, .node 3 [x0, y0], x0]) = leftLeaf dag := by decide +kernel
 
 /-- the hypothesis of `driver_terminates_of_size_decreasing` holds for `fUnwrap` -/
 example : ∀ t, fUnwrap t ≠ t → sizeOf (fUnwrap t) < sizeOf t := by
@@ -237,8 +237,8 @@ example : ∀ t, fUnwrap t ≠ t → sizeOf (fUnwrap t) < sizeOf t := by
         show sizeOf a < _
         simp only [Term.node.sizeOf_spec, List.cons.sizeOf_spec]; omega
     · have : fUnwrap (.node l args) = .node l args := by
-        simp [fUnwrap, applyRules, lookupExact, lookupRule, Term.label, hl]
-        intro h; exact absurd h.symm hl
+        have hl' : ¬ 1 = l := fun h => hl h.symm
+        simp [fUnwrap, applyRules, lookupExact, lookupRule, Term.label, hl']
       exact absurd this ht
 
 end examples
